@@ -439,6 +439,14 @@ func runHistory(r *vk.Run, c *vk.Case) {
 			name = "unStake"
 			isTx = true
 			k = pickKey(func(n *ssc.StakedDataV2_0) bool { return n.Staked || n.Waiting }, 5, 6, false)
+			if len(h.priority) > 0 && rng.Chance(1, 4) { // remove a queued priority (un-jailed) node: moves LastJailedKey
+				var cand []string
+				for pk := range h.priority {
+					cand = append(cand, pk)
+				}
+				sort.Strings(cand)
+				k = []byte(cand[rng.Intn(len(cand))])
+			}
 			if rng.Chance(1, 4) {
 				name = "unStakeNodes"
 			}
